@@ -43,7 +43,7 @@ def _lattice_case(seed, mode='explicit'):
             text = earleylib.rand_input(rng, g, 6)
         n = len(text)
         # ignorable closure: positions reachable from i through ignored matches
-        step = {i: {j for r in ign for j in range(i + 1, n + 1) if r.fullmatch(text, i, j)} for i in range(n + 1)}
+        step = {i: {max(js) for r in ign for js in [[j for j in range(i + 1, n + 1) if r.fullmatch(text, i, j)]] if js} for i in range(n + 1)}      # an ignored terminal is tried at its longest match only (the reading of the property recorded in DESIGN §10.1, as in earleylib.spec_lattice)
         skip = {}
         for i in range(n, -1, -1):
             acc = {i}
